@@ -222,6 +222,22 @@ func tamperTable() []tamper {
 			b.SU.NewRoot = b.B.GlobalStateRoot
 			return "declared state root changed, block hash recomputed: only applying the diff can reject it"
 		}},
+		tamper{name: "state/stale-root-recomputed-hash", reseal: "block", apply: func(t *rapid.T, b *gen.Block, u *gen.Universe) string {
+			if b.SU.OldRoot == nil || b.SU.NewRoot.Equal(b.SU.OldRoot) {
+				return "" // the block does not change the state: declaring the parent's root is correct
+			}
+			b.B.GlobalStateRoot = b.SU.OldRoot
+			b.SU.NewRoot = b.SU.OldRoot
+			return "block declares its parent's state root although its diff changes the state, block hash recomputed"
+		}},
+		tamper{name: "state/zero-root-recomputed-hash", reseal: "block", apply: func(t *rapid.T, b *gen.Block, u *gen.Universe) string {
+			if b.SU.NewRoot.IsZero() {
+				return ""
+			}
+			b.B.GlobalStateRoot = new(felt.Felt)
+			b.SU.NewRoot = b.B.GlobalStateRoot
+			return "declared state root set to zero, block hash recomputed"
+		}},
 		tamper{name: "state/old-root", apply: func(t *rapid.T, b *gen.Block, u *gen.Universe) string {
 			b.SU.OldRoot = bump(b.SU.OldRoot)
 			return "old root changed (not part of the block hash)"
